@@ -9,8 +9,13 @@
 //!   `CompassApp::run` on the repository's `speeds_test` network with a per-run `response_output_policy`
 //!       (end to end: `run_batch_with_responses` / `run_batch_without_responses` on the rayon pool).
 //! Case kinds (see lean/Compass/Drv/C19.lean): F one `format_response`; S one sink life cycle with 1..16 real
-//! threads writing concurrently; X a Combined sink.  Sequential results are compared with the model
-//! textually, concurrent ones as sorted lines.
+//! threads writing concurrently (chains of runs on one file); X a Combined sink, one response; B one sink life
+//! cycle at a path of any kind (missing / file / directory / no parent directory / /dev/full) in each write
+//! mode, with write failures and close; Y a Combined policy from build to close (build failures, failing
+//! members, `ResponseSink::None`); A / A0 `CompassApp::run` (policies from the run configuration or from the
+//! application's TOML, no policy, sinks that cannot be built or refuse writes); P the model's JSON reader
+//! against `serde_json::from_str`.  Sequential results are compared with the model textually, concurrent
+//! ones as sorted records.
 //! Oracle (independent of the model): the file is parsed back (serde_json per line / comma split), one intact
 //! record per response, multiset equality with what the writers got back, single header, columns in header
 //! order (reference evaluation of the mapping written here), nothing of the response lost by the write.
@@ -344,8 +349,9 @@ fn gen_mapping(rng: &mut Rng, depth: usize) -> MapSpec {
     }
 }
 
-const COLS: [&str; 12] = [
+const COLS: [&str; 15] = [
     "origin", "destination", "distance", "time", "energy", "cost", "name", "path", "Zeta", "alpha col", "\u{e9}t\u{e9}", "err",
+    "km, total", "the \"best\" one", "two\nlines",
 ];
 
 fn gen_format(rng: &mut Rng, allow_array_json: bool) -> FmtSpec {
@@ -390,7 +396,7 @@ fn canon(v: &Value) -> Value {
         Value::Object(o) => {
             let mut m = Map::new();
             for (k, x) in o {
-                if k == "error" || k == "csv_error" {
+                if k == "error" || k.starts_with("csv_error") {
                     m.insert(k.clone(), canon_csv_err(x));
                 } else {
                     m.insert(k.clone(), x.clone());
@@ -426,23 +432,193 @@ fn approx_eq(a: &Value, b: &Value) -> bool {
     }
 }
 
-/// field boundaries as an RFC 4180 reader sees them (every `"` toggles quoting)
-fn split_top(row: &str) -> Vec<String> {
-    let mut out = vec![];
-    let mut cur = String::new();
-    let mut q = false;
-    for c in row.chars() {
-        if c == '"' {
-            q = !q;
-            cur.push(c);
-        } else if c == ',' && !q {
-            out.push(std::mem::take(&mut cur));
+/// RFC 4180 reader written for the oracle: the records of a text, each a list of unescaped fields.
+/// A field in double quotes may hold commas, line breaks and `""` for a quote; a record ends at a line break
+/// outside quotes.  Err: a quote that never closes, or text between a closing quote and the next comma.
+fn csv_read(text: &str) -> Result<Vec<Vec<String>>, String> {
+    let cs: Vec<char> = text.chars().collect();
+    let mut records = vec![];
+    let mut fields: Vec<String> = vec![];
+    let mut i = 0;
+    loop {
+        // one field
+        let mut field = String::new();
+        if i < cs.len() && cs[i] == '"' {
+            i += 1;
+            loop {
+                if i >= cs.len() {
+                    return Err("a quoted field never closes".into());
+                }
+                if cs[i] == '"' {
+                    if i + 1 < cs.len() && cs[i + 1] == '"' {
+                        field.push('"');
+                        i += 2;
+                    } else {
+                        i += 1;
+                        break;
+                    }
+                } else {
+                    field.push(cs[i]);
+                    i += 1;
+                }
+            }
+            if i < cs.len() && cs[i] != ',' && cs[i] != '\n' {
+                return Err(format!("text after a closing quote at {}", i));
+            }
         } else {
-            cur.push(c);
+            while i < cs.len() && cs[i] != ',' && cs[i] != '\n' {
+                field.push(cs[i]);
+                i += 1;
+            }
+        }
+        fields.push(field);
+        if i >= cs.len() {
+            records.push(std::mem::take(&mut fields));
+            return Ok(records);
+        }
+        if cs[i] == '\n' {
+            records.push(std::mem::take(&mut fields));
+            i += 1;
+            if i >= cs.len() {
+                return Ok(records);
+            }
+        } else {
+            i += 1; // the comma
         }
     }
-    out.push(cur);
-    out
+}
+
+/// the raw records of a CSV text, each with its terminating line break, and the unterminated rest
+fn csv_raw_records(text: &str) -> (Vec<&str>, &str) {
+    let mut out = vec![];
+    let mut q = false;
+    let mut start = 0;
+    for (i, c) in text.char_indices() {
+        if c == '"' {
+            q = !q;
+        } else if c == '\n' && !q {
+            out.push(&text[start..=i]);
+            start = i + 1;
+        }
+    }
+    (out, &text[start..])
+}
+
+/// what a reader should get for `resp`, column by column in the header's order: a string's text, any other
+/// value's JSON text, nothing when the mapping fails
+fn reference_fields(cols: &[(String, MapSpec)], header: &[String], resp: &Value) -> Vec<String> {
+    header
+        .iter()
+        .map(|h| match cols.iter().find(|(k, _)| k == h).and_then(|(_, spec)| spec.reference(resp)) {
+            Some(Value::String(s)) => s,
+            Some(v) => serde_json::to_string(&v).unwrap_or_default(),
+            None => String::new(),
+        })
+        .collect()
+}
+
+/// the column names of a header line, read back
+fn header_names(cols: &[(String, MapSpec)], header_line: &str) -> Option<Vec<String>> {
+    if cols.is_empty() {
+        return Some(vec![]);
+    }
+    let recs = csv_read(header_line.strip_suffix('\n')?).ok()?;
+    if recs.len() != 1 {
+        return None;
+    }
+    let names = recs.into_iter().next()?;
+    let mut a = names.clone();
+    a.sort();
+    let mut b: Vec<String> = cols.iter().map(|(k, _)| k.clone()).collect();
+    b.sort();
+    if a == b {
+        Some(names)
+    } else {
+        None
+    }
+}
+
+/// the records of a CSV file (raw text, without their line break) against the responses they were written
+/// for, as multisets: every record reads back into as many fields as the header has, holding the cells' values
+fn check_csv_records(ctx: &mut Ctx, idx: usize, cols: &[(String, MapSpec)], names: &[String], records: &[&str], resps: &[&Value]) {
+    if names.is_empty() {
+        return;
+    }
+    // a failure is filed under the defect it points at: an array/object cell, a string cell that needs
+    // escaping, or neither
+    let nonscalar = resps.iter().any(|resp| cols.iter().any(|(_, m)| matches!(m.reference(resp), Some(Value::Array(_)) | Some(Value::Object(_)))));
+    let tricky_string = resps.iter().any(|resp| {
+        cols.iter().any(|(_, m)| matches!(m.reference(resp), Some(Value::String(s)) if s.chars().any(|c| c == '"' || c == ',' || c == '\\' || (c as u32) < 32)))
+    });
+    let key_for = |generic: &'static str| -> &'static str {
+        if nonscalar {
+            "sink/csv-nonscalar-cell-unquoted"
+        } else if tricky_string {
+            "sink/csv-string-cell-json-escaped"
+        } else {
+            generic
+        }
+    };
+    let mut got: Vec<Vec<String>> = vec![];
+    for r in records {
+        match csv_read(r) {
+            Ok(mut recs) if recs.len() == 1 => got.push(recs.remove(0)),
+            Ok(recs) => {
+                ctx.fail(idx, key_for("sink/csv-record-unreadable"), format!("a reader gets {} records from {:?}", recs.len(), clip(r)));
+                return;
+            }
+            Err(e) => {
+                ctx.fail(idx, key_for("sink/csv-record-unreadable"), format!("{}: {:?}", e, clip(r)));
+                return;
+            }
+        }
+    }
+    if let Some(bad) = got.iter().find(|f| f.len() != names.len()) {
+        ctx.fail(idx, key_for("sink/csv-column-count"), format!("header has {} columns, a reader gets {} fields: {:?}", names.len(), bad.len(), clip(&bad.join("|"))));
+        return;
+    }
+    let mut want: Vec<Vec<String>> = resps.iter().map(|r| reference_fields(cols, names, r)).collect();
+    got.sort();
+    want.sort();
+    if got != want {
+        let k = got.iter().zip(&want).position(|(a, b)| a != b).unwrap_or(0);
+        let (g, w) = (got.get(k).map(|f| f.join("|")).unwrap_or_default(), want.get(k).map(|f| f.join("|")).unwrap_or_default());
+        ctx.fail(idx, key_for("sink/csv-row-mismatch"), format!("a reader gets fields {:?}, the mapping in header order {:?} says {:?}", clip(&g), names, clip(&w)));
+    }
+}
+
+/// canonical text of a file written by several threads: what was there after open, then the records sorted
+fn canonical_file(fmt: &FmtSpec, opened: &str, rest: &str) -> String {
+    match fmt {
+        FmtSpec::Csv { .. } => {
+            let (mut recs, left) = csv_raw_records(rest);
+            recs.sort();
+            format!("{}{}{}", opened, recs.concat(), left)
+        }
+        _ => {
+            let mut ls: Vec<&str> = rest.split('\n').collect();
+            ls.sort();
+            format!("{}{}", opened, ls.join("\n"))
+        }
+    }
+}
+
+/// the records of the text appended to a file, without their line breaks, and whether the text ends with one
+fn appended_records<'a>(fmt: &FmtSpec, rest: &'a str) -> (Vec<&'a str>, bool) {
+    match fmt {
+        FmtSpec::Csv { .. } => {
+            let (recs, left) = csv_raw_records(rest);
+            (recs.into_iter().map(|r| &r[..r.len() - 1]).collect(), left.is_empty())
+        }
+        _ => {
+            if rest.is_empty() {
+                (vec![], true)
+            } else {
+                let ok = rest.ends_with('\n');
+                (rest.strip_suffix('\n').unwrap_or(rest).split('\n').collect(), ok)
+            }
+        }
+    }
 }
 
 /// every top-level key/value of `before` is still in `after`, unchanged; Some((key, kind)) otherwise
@@ -490,32 +666,6 @@ fn clip(s: &str) -> String {
     }
 }
 
-/// the row a reader expects for `resp` given the header's column order
-fn reference_row(cols: &[(String, MapSpec)], header: &[String], resp: &Value) -> Option<String> {
-    let mut cells = vec![];
-    for h in header {
-        let spec = &cols.iter().find(|(k, _)| k == h)?.1;
-        cells.push(match spec.reference(resp) {
-            Some(v) => serde_json::to_string(&v).ok()?,
-            None => String::new(),
-        });
-    }
-    Some(cells.join(","))
-}
-
-/// does a reader get as many fields as the header has? classify the cause otherwise
-fn check_columns(ctx: &mut Ctx, idx: usize, cols: &[(String, MapSpec)], header: &[String], resp: &Value, row: &str) {
-    if header.is_empty() {
-        return;
-    }
-    let got = split_top(row).len();
-    if got != header.len() {
-        let nonscalar = cols.iter().any(|(_, m)| matches!(m.reference(resp), Some(Value::Array(_)) | Some(Value::Object(_))));
-        let key = if nonscalar { "sink/csv-nonscalar-cell-unquoted" } else { "sink/csv-string-cell-json-escaped" };
-        ctx.fail(idx, key, format!("header has {} columns, a reader splits the row into {}: {}", header.len(), got, clip(row)));
-    }
-}
-
 // ---------------------------------------------------------------------------------------------------
 // case kind F: one format_response
 
@@ -555,23 +705,21 @@ fn case_f(ctx: &mut Ctx, idx: usize, fmt: &FmtSpec, resp: &Value) {
             }
             FmtSpec::Json(false) => {}
             FmtSpec::Csv { cols, .. } => {
-                if row.contains('\n') {
-                    ctx.fail(idx, "sink/record-not-one-line", clip(row));
-                }
                 let h = header.clone().unwrap_or_default();
-                let names: Vec<String> = if cols.is_empty() { vec![] } else { h.trim_end_matches('\n').split(',').map(|s| s.to_string()).collect() };
-                let mut sorted_names = names.clone();
-                sorted_names.sort();
-                let mut want: Vec<String> = cols.iter().map(|(k, _)| k.clone()).collect();
-                want.sort();
-                if sorted_names != want || !h.ends_with('\n') {
-                    ctx.fail(idx, "sink/csv-header", format!("header {:?} is not the mapping's columns {:?}", h, want));
-                } else {
-                    match reference_row(cols, &names, resp) {
-                        Some(r) if &r == row => {}
-                        other => ctx.fail(idx, "sink/csv-row-mismatch", format!("row {} expected {:?} (header order {:?})", clip(row), other.map(|s| clip(&s)), names)),
+                match header_names(cols, &h) {
+                    None => ctx.fail(idx, "sink/csv-header", format!("header {:?} does not read back into the mapping's columns", h)),
+                    Some(names) => {
+                        let terminated_row = format!("{}\n", row);
+                        let (raw, left) = csv_raw_records(&terminated_row);
+                        if (raw.len() != 1 || !left.is_empty()) && !cols.is_empty() {
+                            // let the record check say what a reader makes of it
+                            ctx.count("F/csv-row-not-one-record");
+                        }
+                        check_csv_records(ctx, idx, cols, &names, &[row.as_str()], &[resp]);
                     }
-                    check_columns(ctx, idx, cols, &names, resp, row);
+                }
+                if row.contains('\n') {
+                    ctx.count("F/csv-row-with-line-break");
                 }
                 let failing = cols.iter().filter(|(_, m)| m.reference(resp).is_none()).count();
                 ctx.count(if failing == 0 { "F/csv-all-cells" } else if failing == cols.len() { "F/csv-no-cell" } else { "F/csv-some-cells-fail" });
@@ -729,10 +877,7 @@ fn case_s(ctx: &mut Ctx, idx: usize, c: &SinkCase) -> Option<String> {
     let canonical = if !prefix_ok {
         file.clone()
     } else if t > 1 {
-        let rest = &file[opened.len()..];
-        let mut ls: Vec<&str> = rest.split('\n').collect();
-        ls.sort();
-        format!("{}{}", opened, ls.join("\n"))
+        canonical_file(&c.fmt, &opened, &file[opened.len()..])
     } else {
         file.clone()
     };
@@ -771,11 +916,11 @@ fn case_s(ctx: &mut Ctx, idx: usize, c: &SinkCase) -> Option<String> {
         let all: Vec<&Value> = c.workers.iter().flatten().collect();
         let rest = &file[opened.len()..];
         let mut ok_shape = true;
-        if !rest.is_empty() && !rest.ends_with('\n') {
-            ctx.fail(idx, "sink/record-truncated", format!("file does not end with a newline: …{:?}", clip(&rest[rest.len().saturating_sub(80)..])));
+        let (mut lines, terminated) = appended_records(&c.fmt, rest);
+        if !terminated {
+            ctx.fail(idx, "sink/record-truncated", format!("the file does not end with a complete record: {:?}", clip(rest)));
             ok_shape = false;
         }
-        let mut lines: Vec<&str> = if rest.is_empty() { vec![] } else { rest[..rest.len() - 1].split('\n').collect() };
         if c.close {
             // close() ends the file with one empty line
             if lines.last() == Some(&"") {
@@ -838,34 +983,18 @@ fn case_s(ctx: &mut Ctx, idx: usize, c: &SinkCase) -> Option<String> {
                     if created && opened != header_line {
                         ctx.fail(idx, "sink/csv-header", format!("a new file starts with {:?}, not with the header {:?}", clip(&opened), header_line));
                     }
-                    let names: Vec<String> = if cols.is_empty() { vec![] } else { header_line.trim_end_matches('\n').split(',').map(|s| s.to_string()).collect() };
-                    let mut sorted_names = names.clone();
-                    sorted_names.sort();
-                    let mut want_names: Vec<String> = cols.iter().map(|(k, _)| k.clone()).collect();
-                    want_names.sort();
-                    if sorted_names != want_names {
-                        ctx.fail(idx, "sink/csv-header", format!("header {:?} is not the mapping's columns", header_line));
-                    } else {
-                        // exactly one header in a file this run created (or that a previous run of the same format created)
-                        let h = header_line.trim_end_matches('\n');
-                        if !cols.is_empty() && file.starts_with(&header_line) {
-                            let count = file.split('\n').filter(|l| *l == h).count();
-                            if count != 1 {
-                                ctx.fail(idx, "sink/csv-header-repeated", format!("{} header lines in the file", count));
+                    match header_names(cols, &header_line) {
+                        None => ctx.fail(idx, "sink/csv-header", format!("header {:?} does not read back into the mapping's columns", header_line)),
+                        Some(names) => {
+                            // exactly one header in a file this run created (or that a previous run of the same format created)
+                            if !cols.is_empty() && file.starts_with(&header_line) {
+                                let (all_records, _) = csv_raw_records(&file);
+                                let count = all_records.iter().filter(|l| **l == header_line).count();
+                                if count != 1 {
+                                    ctx.fail(idx, "sink/csv-header-repeated", format!("{} header records in the file", count));
+                                }
                             }
-                        }
-                        let mut want: Vec<String> = all.iter().map(|r| reference_row(cols, &names, r).unwrap_or_default()).collect();
-                        let mut got: Vec<String> = lines.iter().map(|s| s.to_string()).collect();
-                        want.sort();
-                        got.sort();
-                        if want != got {
-                            let k = want.iter().zip(&got).position(|(a, b)| a != b).unwrap_or(0);
-                            ctx.fail(idx, "sink/csv-row-mismatch", format!("rows differ from the mapping applied in header order, e.g. {:?} vs {:?}", clip(&got[k]), clip(&want[k])));
-                        } else {
-                            for r in &all {
-                                let row = reference_row(cols, &names, r).unwrap_or_default();
-                                check_columns(ctx, idx, cols, &names, r, &row);
-                            }
+                            check_csv_records(ctx, idx, cols, &names, &lines, &all);
                         }
                     }
                 }
@@ -941,11 +1070,12 @@ fn case_x(ctx: &mut Ctx, idx: usize, fmts: &[FmtSpec], nest: bool, resp: &Value)
 // ---------------------------------------------------------------------------------------------------
 // case kind A: CompassApp::run end to end on the repository's three-vertex test network
 
-fn build_app() -> Option<CompassApp> {
-    let d = "/repo/rust/routee-compass/src/app/compass/test/speeds_test";
+fn build_app(top_level: &str) -> Option<CompassApp> {
+    let repo = std::env::var("VERIF_REPO").unwrap_or_else(|_| "/repo".to_string());
+    let d = format!("{}/rust/routee-compass/src/app/compass/test/speeds_test", repo);
     let toml = format!(
         r#"
-parallelism = 4
+{top_level}
 [graph]
 edge_list_input_file = "{d}/test_edges.csv"
 vertex_list_input_file = "{d}/test_vertices.csv"
@@ -973,6 +1103,7 @@ output_plugins = [ {{ type = "summary" }}, {{ type = "traversal", route = "edge_
     );
     let _ = std::fs::create_dir_all(DIR);
     let cfg_path = format!("{}/{}_app.toml", DIR, std::process::id());
+    let _ = std::fs::remove_file(&cfg_path);
     std::fs::write(&cfg_path, &toml).ok()?;
     let abs = std::fs::canonicalize(&cfg_path).ok()?;
     let app = CompassApp::try_from_config_toml_string(toml, abs.to_str()?.to_string(), &CompassAppBuilder::default()).ok();
@@ -982,6 +1113,8 @@ output_plugins = [ {{ type = "summary" }}, {{ type = "traversal", route = "edge_
 
 struct AppCase {
     existing: Option<String>,
+    /// the policies come from the application's own configuration (TOML) instead of the per-run configuration
+    via_app_config: bool,
     fmt: FmtSpec,
     rate: Option<i64>,
     persist: bool,
@@ -1028,8 +1161,44 @@ fn before_csv_write(cols: &[(String, MapSpec)], post: &Value) -> Value {
 }
 
 /// returns the file the run left
-fn case_a(ctx: &mut Ctx, idx: usize, app: &CompassApp, c: &AppCase) -> Option<String> {
+fn case_a(ctx: &mut Ctx, idx: usize, app: &CompassApp, c0: &AppCase) -> Option<String> {
     let path = file_path(idx);
+    // when the policies come from the application's own TOML, the `config` crate decides the order in which
+    // the mapping's columns arrive: take the column order from the application that was built
+    let mut own_app: Option<CompassApp> = None;
+    let mut c_eff = AppCase { existing: c0.existing.clone(), via_app_config: c0.via_app_config, fmt: c0.fmt.clone(), rate: c0.rate, persist: c0.persist, parallelism: c0.parallelism, queries: c0.queries.clone() };
+    if c0.via_app_config {
+        let mut policy = json!({"type": "file", "filename": path, "format": c0.fmt.config()});
+        if let Some(r) = c0.rate {
+            policy["file_flush_rate"] = json!(r);
+        }
+        let top = format!(
+            "parallelism = {}\nresponse_persistence_policy = \"{}\"\nresponse_output_policy = {}",
+            c0.parallelism,
+            if c0.persist { "persist_response_in_memory" } else { "discard_response_from_memory" },
+            toml_inline(&policy)
+        );
+        own_app = build_app(&top);
+        match &own_app {
+            Some(own) => {
+                if let (ResponseOutputPolicy::File { format: ResponseOutputFormat::Csv { mapping, .. }, .. }, FmtSpec::Csv { cols, sorted }) = (&own.response_output_policy, &c0.fmt) {
+                    let order: Vec<String> = mapping.keys().cloned().collect();
+                    let reordered: Vec<(String, MapSpec)> = order.iter().filter_map(|k| cols.iter().find(|(c, _)| c == k).cloned()).collect();
+                    if reordered.len() == cols.len() {
+                        c_eff.fmt = FmtSpec::Csv { cols: reordered, sorted: *sorted };
+                    } else {
+                        ctx.count("A/app-config-renamed-columns");
+                        own_app = None;
+                    }
+                }
+            }
+            None => ctx.count("A/app-config-did-not-build"),
+        }
+        if own_app.is_none() {
+            c_eff.via_app_config = false;
+        }
+    }
+    let c = &c_eff;
     let _ = std::fs::create_dir_all(DIR);
     let _ = std::fs::remove_file(&path);
     if let Some(e) = &c.existing {
@@ -1040,12 +1209,20 @@ fn case_a(ctx: &mut Ctx, idx: usize, app: &CompassApp, c: &AppCase) -> Option<St
     if let Some(r) = c.rate {
         policy["file_flush_rate"] = json!(r);
     }
+    let persistence = if c.persist { "persist_response_in_memory" } else { "discard_response_from_memory" };
     let cfg = json!({
         "parallelism": c.parallelism,
-        "response_persistence_policy": if c.persist { "persist_response_in_memory" } else { "discard_response_from_memory" },
+        "response_persistence_policy": persistence,
         "response_output_policy": policy,
     });
-    let res = catch_unwind(AssertUnwindSafe(|| app.run(c.queries.clone(), Some(&cfg))));
+    let res = match &own_app {
+        // the same three settings are defaults of the application built for this case: no run configuration
+        Some(own) => catch_unwind(AssertUnwindSafe(|| own.run(c.queries.clone(), None))),
+        None => catch_unwind(AssertUnwindSafe(|| app.run(c.queries.clone(), Some(&cfg)))),
+    };
+    if c.via_app_config {
+        ctx.count("A/policies-from-app-config");
+    }
     let file = std::fs::read_to_string(&path).unwrap_or_default();
     let _ = std::fs::remove_file(&path);
     let n_bad: usize = c.queries.iter().filter(|q| query_kind(q).1).count();
@@ -1057,13 +1234,13 @@ fn case_a(ctx: &mut Ctx, idx: usize, app: &CompassApp, c: &AppCase) -> Option<St
         other => {
             ctx.count("A/run-failed");
             ctx.fail(idx, "app/run-failed", format!("CompassApp::run did not return responses: {}", match other { Ok(Err(e)) => clip(&e.to_string()), _ => "panic".into() }));
-            ctx.emit(idx, format!("A n {} n {} 1 0 0", c.fmt.enc(), c.persist as u8), "apperr".into());
+            ctx.emit(idx, format!("A m {} n {} 1 0 0", c.fmt.enc(), c.persist as u8), "apperr".into());
             return None;
         }
     };
     let prefix_ok = file.starts_with(&opened);
     let rest: &str = if prefix_ok { &file[opened.len()..] } else { "" };
-    let lines: Vec<&str> = if rest.is_empty() { vec![] } else { rest.strip_suffix('\n').unwrap_or(rest).split('\n').collect() };
+    let (lines, terminated) = appended_records(&c.fmt, rest);
     // the responses of queries that failed input processing come last in what is handed back (both policies)
     let split = returned.len().saturating_sub(n_bad);
     let errors_post: Vec<Value> = returned[split..].to_vec();
@@ -1095,9 +1272,7 @@ fn case_a(ctx: &mut Ctx, idx: usize, app: &CompassApp, c: &AppCase) -> Option<St
     let canonical = if !prefix_ok {
         file.clone()
     } else if c.parallelism > 1 {
-        let mut ls: Vec<&str> = rest.split('\n').collect();
-        ls.sort();
-        format!("{}{}", opened, ls.join("\n"))
+        canonical_file(&c.fmt, &opened, rest)
     } else {
         file.clone()
     };
@@ -1110,8 +1285,8 @@ fn case_a(ctx: &mut Ctx, idx: usize, app: &CompassApp, c: &AppCase) -> Option<St
     let mut line = format!(
         "A {} {} {} {} {}",
         match &c.existing {
-            Some(e) => format!("s {}", hex(e)),
-            None => "n".into(),
+            Some(e) => format!("f {}", hex(e)),
+            None => "m".into(),
         },
         c.fmt.enc(),
         match c.rate {
@@ -1166,8 +1341,8 @@ fn case_a(ctx: &mut Ctx, idx: usize, app: &CompassApp, c: &AppCase) -> Option<St
         if returned.len() != handed_back {
             ctx.fail(idx, "app/response-count", format!("{} responses expected back, {} returned", handed_back, returned.len()));
         }
-        if !rest.is_empty() && !rest.ends_with('\n') {
-            ctx.fail(idx, "sink/record-truncated", "file does not end with a newline".into());
+        if !terminated {
+            ctx.fail(idx, "sink/record-truncated", "the file does not end with a complete record".into());
         }
         let count_ok = lines.len() == expected;
         if !count_ok {
@@ -1220,13 +1395,14 @@ fn case_a(ctx: &mut Ctx, idx: usize, app: &CompassApp, c: &AppCase) -> Option<St
                 }
             }
             FmtSpec::Csv { cols, .. } if !cols.is_empty() && c.persist => {
-                let names: Vec<String> = header.trim_end_matches('\n').split(',').map(|s| s.to_string()).collect();
-                let mut want: Vec<String> = errors_pre.iter().chain(searched_pre.iter()).map(|r| reference_row(cols, &names, r).unwrap_or_default()).collect();
-                let mut got: Vec<String> = lines.iter().map(|s| s.to_string()).collect();
-                want.sort();
-                got.sort();
-                if count_ok && want != got {
-                    ctx.fail(idx, "sink/csv-row-mismatch", format!("rows {:?} expected {:?}", clip(&got.join(";")), clip(&want.join(";"))));
+                match header_names(cols, &header) {
+                    None => ctx.fail(idx, "sink/csv-header", format!("header {:?} does not read back into the mapping's columns", header)),
+                    Some(names) => {
+                        if count_ok {
+                            let all: Vec<&Value> = errors_pre.iter().chain(searched_pre.iter()).collect();
+                            check_csv_records(ctx, idx, cols, &names, &lines, &all);
+                        }
+                    }
                 }
                 if file.split('\n').filter(|l| *l == header.trim_end_matches('\n')).count() != 1 && file.starts_with(&header) {
                     ctx.fail(idx, "sink/csv-header-repeated", "more than one header line".into());
@@ -1357,6 +1533,449 @@ fn case_p(ctx: &mut Ctx, idx: usize, rng: &mut Rng) {
         Err(_) => "fail".to_string(),
     };
     ctx.emit(idx, format!("P {}", hex(&line)), out);
+}
+
+/// a JSON value as a TOML inline value (the policies of an application configuration)
+fn toml_inline(v: &Value) -> String {
+    fn s(t: &str) -> String {
+        let mut o = String::from("\"");
+        for c in t.chars() {
+            match c {
+                '"' => o.push_str("\\\""),
+                '\\' => o.push_str("\\\\"),
+                c if (c as u32) < 32 || c as u32 == 127 => o.push_str(&format!("\\u{:04X}", c as u32)),
+                c => o.push(c),
+            }
+        }
+        o.push('"');
+        o
+    }
+    match v {
+        Value::Null => "\"\"".into(),
+        Value::Bool(b) => b.to_string(),
+        Value::Number(n) => n.to_string(),
+        Value::String(t) => s(t),
+        Value::Array(xs) => format!("[{}]", xs.iter().map(toml_inline).collect::<Vec<_>>().join(", ")),
+        Value::Object(m) => format!("{{ {} }}", m.iter().map(|(k, x)| format!("{} = {}", s(k), toml_inline(x))).collect::<Vec<_>>().join(", ")),
+    }
+}
+
+// ---------------------------------------------------------------------------------------------------
+// paths of every kind
+
+#[derive(Clone, Debug)]
+enum PathSpec {
+    Missing,
+    File(String),
+    Directory,
+    NoParent,
+    /// /dev/full: exists, opens, refuses every write of at least one byte
+    Full,
+}
+
+impl PathSpec {
+    fn enc(&self) -> String {
+        match self {
+            PathSpec::Missing => "m".into(),
+            PathSpec::File(c) => format!("f {}", hex(c)),
+            PathSpec::Directory => "d".into(),
+            PathSpec::NoParent => "p".into(),
+            PathSpec::Full => "F".into(),
+        }
+    }
+    /// put the thing in place; returns the path to configure
+    fn setup(&self, idx: usize, tag: &str) -> String {
+        let _ = std::fs::create_dir_all(DIR);
+        let base = format!("{}/{}_{}_{}", DIR, std::process::id(), idx, tag);
+        let _ = std::fs::remove_file(&base);
+        let _ = std::fs::remove_dir_all(&base);
+        match self {
+            PathSpec::Missing => base,
+            PathSpec::File(c) => {
+                std::fs::write(&base, c).expect("write existing file");
+                base
+            }
+            PathSpec::Directory => {
+                std::fs::create_dir_all(&base).expect("create directory");
+                base
+            }
+            PathSpec::NoParent => format!("{}/not-there/out", base),
+            PathSpec::Full => "/dev/full".into(),
+        }
+    }
+    /// what is at the path now, in the protocol's terms
+    fn observe(&self, path: &str) -> String {
+        if matches!(self, PathSpec::Full) {
+            return "F".into();
+        }
+        let p = Path::new(path);
+        if p.is_dir() {
+            "d".into()
+        } else if p.is_file() {
+            format!("f {}", hex(&std::fs::read_to_string(p).unwrap_or_default()))
+        } else if p.parent().map(|d| d.is_dir()).unwrap_or(false) {
+            "m".into()
+        } else {
+            "p".into()
+        }
+    }
+    fn cleanup(&self, path: &str) {
+        if matches!(self, PathSpec::Full) {
+            return;
+        }
+        let _ = std::fs::remove_file(path);
+        let _ = std::fs::remove_dir_all(path);
+        if let PathSpec::NoParent = self {
+            if let Some(base) = Path::new(path).parent().and_then(|d| d.parent()) {
+                let _ = std::fs::remove_dir_all(base);
+            }
+        }
+    }
+    fn name(&self) -> &'static str {
+        match self {
+            PathSpec::Missing => "missing",
+            PathSpec::File(_) => "file",
+            PathSpec::Directory => "directory",
+            PathSpec::NoParent => "no-parent",
+            PathSpec::Full => "dev-full",
+        }
+    }
+}
+
+fn gen_path(rng: &mut Rng, fmt: &FmtSpec) -> PathSpec {
+    match rng.below(9) {
+        0 | 1 => PathSpec::Missing,
+        2 => PathSpec::File(String::new()),
+        3 => PathSpec::File(fmt.build().initial_file_contents().unwrap_or_default()),
+        4 => PathSpec::File(format!("{}\n", gen_string(rng).replace('"', "'"))),
+        5 => PathSpec::Directory,
+        6 => PathSpec::NoParent,
+        _ => PathSpec::Full,
+    }
+}
+
+fn opt_int(r: Option<i64>) -> String {
+    match r {
+        Some(r) => format!("s {}", r),
+        None => "n".into(),
+    }
+}
+
+// ---------------------------------------------------------------------------------------------------
+// case kind B: one sink life cycle at a path of any kind (build failures, a device that refuses writes, close)
+
+fn case_b(ctx: &mut Ctx, idx: usize, mode: char, spec: &PathSpec, fmt: &FmtSpec, rate: Option<i64>, close: bool, resps: &[Value]) {
+    let path = spec.setup(idx, "b");
+    let label = format!("member-{}", idx % 7);
+    let mut line = format!("B {} {} {} {} {} {} {}", mode, hex(&label), spec.enc(), fmt.enc(), opt_int(rate), close as u8, resps.len());
+    for r in resps {
+        line.push(' ');
+        line.push_str(&enc(r));
+    }
+    let real_fmt = fmt.build();
+    let built: Result<ResponseSink, &'static str> = match mode {
+        'a' => {
+            let policy = ResponseOutputPolicy::File { filename: path.clone(), format: real_fmt.clone(), file_flush_rate: rate };
+            policy.build().map_err(|e| classify_build_error(&e.to_string()))
+        }
+        m => {
+            let wm = if m == 'o' { WriteMode::Overwrite } else { WriteMode::Error };
+            match wm.open_file(Path::new(&path), &real_fmt) {
+                Err(e) => Err(classify_build_error(&e.to_string())),
+                Ok(file) => Ok(ResponseSink::File {
+                    filename: path.clone(),
+                    file: Arc::new(Mutex::new(file)),
+                    format: real_fmt.clone(),
+                    delimiter: real_fmt.delimiter(),
+                    iterations_per_flush: rate.unwrap_or(1).max(1) as u64,
+                    iterations: Arc::new(Mutex::new(0)),
+                }),
+            }
+        }
+    };
+    ctx.count(&format!("B/{}-{}", spec.name(), mode));
+    let out = match built {
+        Err(kind) => {
+            ctx.count(&format!("B/build-{}", kind));
+            let after = spec.observe(&path);
+            // a refused or failed open must leave what is at the path alone
+            if kind != "badrate" && after != spec.enc() {
+                ctx.fail(idx, "sink/failed-open-changed-path", format!("{} -> {}", clip(&spec.enc()), clip(&after)));
+            }
+            format!("{} {}", kind, after)
+        }
+        Ok(sink) => {
+            let mut outs = vec![];
+            let mut n_ok = 0;
+            for r in resps {
+                let mut after = r.clone();
+                let res = catch_unwind(AssertUnwindSafe(|| sink.write_response(&mut after)));
+                let tag = match &res {
+                    Ok(Ok(())) => {
+                        n_ok += 1;
+                        "o"
+                    }
+                    Ok(Err(e)) => {
+                        if e.to_string().contains("lock") {
+                            "l"
+                        } else {
+                            "e"
+                        }
+                    }
+                    Err(_) => "p",
+                };
+                ctx.count(&format!("B/write-{}", tag));
+                if tag != "p" {
+                    check_preserved(ctx, idx, r, &after);
+                }
+                outs.push(format!("{} {}", tag, enc(&canon(if tag == "p" { r } else { &after }))));
+            }
+            let closed = if close {
+                match sink.close() {
+                    Ok(name) => {
+                        ctx.count("B/close-ok");
+                        format!("some {}", hex(&if name == path { label.clone() } else { name }))
+                    }
+                    Err(_) => {
+                        ctx.count("B/close-error");
+                        "none".into()
+                    }
+                }
+            } else {
+                "skip".into()
+            };
+            let iterations = iterations_of(&sink);
+            drop(sink);
+            let file = if matches!(spec, PathSpec::Full) { "-".to_string() } else { hex(&std::fs::read_to_string(&path).unwrap_or_default()) };
+            if iterations as usize != n_ok {
+                ctx.fail(idx, "sink/counter", format!("{} successful writes, counter {}", n_ok, iterations));
+            }
+            ctx.nontrivial(&format!("B {} {} {} {} {}", mode, spec.name(), fmt.shape(), resps.len(), close));
+            let mut o = format!("ok {} {} {} {}", iterations, closed, file, outs.len());
+            for x in outs {
+                o.push(' ');
+                o.push_str(&x);
+            }
+            o
+        }
+    };
+    spec.cleanup(&path);
+    ctx.emit(idx, line, out);
+}
+
+fn classify_build_error(msg: &str) -> &'static str {
+    if msg.contains("iterations_per_flush must be positive") {
+        "badrate"
+    } else if msg.contains("write mode is 'error'") {
+        "refused"
+    } else {
+        "ioerr"
+    }
+}
+
+// ---------------------------------------------------------------------------------------------------
+// case kind Y: a Combined policy from build to close
+
+struct MemberSpec {
+    label: String,
+    path: PathSpec,
+    fmt: FmtSpec,
+    rate: Option<i64>,
+}
+
+fn case_y(ctx: &mut Ctx, idx: usize, members: &[MemberSpec], nest: bool, close: bool, resps: &[Value]) {
+    let paths: Vec<String> = members.iter().enumerate().map(|(i, m)| m.path.setup(idx, &format!("y{}", i))).collect();
+    let mut line = format!("Y {}", members.len());
+    for m in members {
+        line.push_str(&format!(" {} {} {} {}", hex(&m.label), m.path.enc(), m.fmt.enc(), opt_int(m.rate)));
+    }
+    line.push_str(&format!(" {} {}", close as u8, resps.len()));
+    for r in resps {
+        line.push(' ');
+        line.push_str(&enc(r));
+    }
+    let mut policies: Vec<Box<ResponseOutputPolicy>> = members
+        .iter()
+        .zip(&paths)
+        .map(|(m, p)| Box::new(ResponseOutputPolicy::File { filename: p.clone(), format: m.fmt.build(), file_flush_rate: m.rate }))
+        .collect();
+    if nest && policies.len() >= 2 {
+        let tail = policies.split_off(1);
+        policies.push(Box::new(ResponseOutputPolicy::None));
+        policies.push(Box::new(ResponseOutputPolicy::Combined { policies: tail }));
+    }
+    // no member at all: half of the time the policy is `type = "none"` itself (ResponseSink::None)
+    let policy = if members.is_empty() && !nest {
+        ctx.count("Y/policy-none");
+        ResponseOutputPolicy::None
+    } else {
+        ResponseOutputPolicy::Combined { policies }
+    };
+    ctx.count(&format!("Y/members-{}", members.len()));
+    let out = match policy.build() {
+        Err(_) => {
+            ctx.count("Y/build-error");
+            let mut o = String::from("builderr");
+            for (m, p) in members.iter().zip(&paths) {
+                o.push(' ');
+                o.push_str(&m.path.observe(p));
+            }
+            o
+        }
+        Ok(sink) => {
+            let mut outs = vec![];
+            for r in resps {
+                let mut after = r.clone();
+                let res = catch_unwind(AssertUnwindSafe(|| sink.write_response(&mut after)));
+                match res {
+                    Ok(Ok(())) => {
+                        check_preserved(ctx, idx, r, &after);
+                        outs.push(format!("o {}", enc(&canon(&after))));
+                    }
+                    Ok(Err(e)) if e.to_string().contains("lock") => outs.push("l".into()),
+                    Ok(Err(_)) => {
+                        check_preserved(ctx, idx, r, &after);
+                        outs.push(format!("e {}", enc(&canon(&after))));
+                        ctx.count("Y/write-error");
+                    }
+                    Err(_) => outs.push("p".into()),
+                }
+            }
+            let closed = if close {
+                match sink.close() {
+                    Ok(names) => {
+                        let mut n = names;
+                        for (m, p) in members.iter().zip(&paths) {
+                            if !matches!(m.path, PathSpec::Full) {
+                                n = n.replace(p.as_str(), &m.label);
+                            }
+                        }
+                        format!("some {}", hex(&n))
+                    }
+                    Err(_) => {
+                        ctx.count("Y/close-error");
+                        "none".into()
+                    }
+                }
+            } else {
+                "skip".into()
+            };
+            drop(sink);
+            let mut o = format!("ok {} {}", closed, members.len());
+            for (m, p) in members.iter().zip(&paths) {
+                o.push(' ');
+                if matches!(m.path, PathSpec::Full) {
+                    o.push('-');
+                } else {
+                    o.push_str(&hex(&std::fs::read_to_string(p).unwrap_or_default()));
+                }
+            }
+            o.push_str(&format!(" {}", outs.len()));
+            for x in outs {
+                o.push(' ');
+                o.push_str(&x);
+            }
+            ctx.nontrivial(&format!("Y {} {} {}", members.iter().map(|m| format!("{}{}", m.fmt.shape(), m.path.name())).collect::<Vec<_>>().join("+"), close, resps.len()));
+            o
+        }
+    };
+    for (m, p) in members.iter().zip(&paths) {
+        m.path.cleanup(p);
+    }
+    ctx.emit(idx, line, out);
+}
+
+// ---------------------------------------------------------------------------------------------------
+// CompassApp::run when the sink cannot be built or refuses writes, and without an output policy
+
+fn case_a_special(ctx: &mut Ctx, idx: usize, app: &CompassApp, spec: Option<&PathSpec>, fmt: &FmtSpec, rate: Option<i64>, persist: bool, parallelism: usize, queries: &[Value]) {
+    let n_bad: usize = queries.iter().filter(|q| query_kind(q).1).count();
+    let expected: usize = queries.iter().map(|q| query_kind(q).0).sum();
+    let persistence = if persist { "persist_response_in_memory" } else { "discard_response_from_memory" };
+    let dummy = json!({});
+    let Some(spec) = spec else {
+        // no output policy: the application default `type = "none"`, only the persistence policy is set
+        let cfg = json!({"parallelism": parallelism, "response_persistence_policy": persistence});
+        let res = catch_unwind(AssertUnwindSafe(|| app.run(queries.to_vec(), Some(&cfg))));
+        ctx.count(if persist { "A0/persist" } else { "A0/discard" });
+        match res {
+            Ok(Ok(returned)) => {
+                let handed_back = if persist { expected } else { n_bad };
+                if returned.len() != handed_back {
+                    ctx.fail(idx, "app/response-count", format!("{} responses expected back, {} returned", handed_back, returned.len()));
+                }
+                let split = returned.len().saturating_sub(n_bad);
+                let mut line = format!("A0 {} 1 {}", persist as u8, split);
+                for r in &returned[..split] {
+                    line.push(' ');
+                    line.push_str(&enc(r));
+                }
+                line.push_str(&format!(" {}", returned.len() - split));
+                for r in &returned[split..] {
+                    line.push(' ');
+                    line.push_str(&enc(r));
+                }
+                let mut encs: Vec<String> = returned.iter().map(|r| enc(&canon(r))).collect();
+                encs.sort();
+                let mut out = format!("ok {}", returned.len());
+                for e in encs {
+                    out.push(' ');
+                    out.push_str(&e);
+                }
+                ctx.emit(idx, line, out);
+            }
+            _ => {
+                ctx.fail(idx, "app/run-failed", "CompassApp::run without an output policy did not return responses".into());
+                ctx.emit(idx, format!("A0 {} 0 0", persist as u8), "apperr".into());
+            }
+        }
+        return;
+    };
+    let path = spec.setup(idx, "a");
+    let mut policy = json!({"type": "file", "filename": path, "format": fmt.config()});
+    if let Some(r) = rate {
+        policy["file_flush_rate"] = json!(r);
+    }
+    let cfg = json!({"parallelism": parallelism, "response_persistence_policy": persistence, "response_output_policy": policy});
+    let res = catch_unwind(AssertUnwindSafe(|| app.run(queries.to_vec(), Some(&cfg))));
+    // the model gets the shape of the batch only (placeholders): nothing of it can be observed in these runs
+    let searched = expected - n_bad;
+    let workers = parallelism.max(1);
+    let mut line = format!("A {} {} {} {} {}", spec.enc(), fmt.enc(), opt_int(rate), persist as u8, workers);
+    for w in 0..workers {
+        let n = searched / workers + if w < searched % workers { 1 } else { 0 };
+        line.push_str(&format!(" {}", n));
+        for _ in 0..n {
+            line.push(' ');
+            line.push_str(&enc(&dummy));
+        }
+    }
+    line.push_str(&format!(" {}", n_bad));
+    for _ in 0..n_bad {
+        line.push(' ');
+        line.push_str(&enc(&dummy));
+    }
+    ctx.count(&format!("A/special-{}{}", spec.name(), if matches!(rate, Some(r) if r <= 0) { "-badrate" } else { "" }));
+    let out = match res {
+        Ok(Ok(returned)) => {
+            ctx.count("A/special-run-ok");
+            if !returned.is_empty() && matches!(spec, PathSpec::Full) {
+                ctx.fail(idx, "app/response-count", format!("{} responses handed back although every write failed", returned.len()));
+            }
+            if matches!(spec, PathSpec::Full) {
+                format!("ok - {}", returned.len())
+            } else {
+                // a path that could be opened after all: not a case for this stream
+                format!("unexpected-ok {}", returned.len())
+            }
+        }
+        _ => {
+            ctx.count("A/special-run-error");
+            "apperr".to_string()
+        }
+    };
+    spec.cleanup(&path);
+    ctx.emit(idx, line, out);
 }
 
 fn strip_error_paths(m: &mut MapSpec) {
@@ -1569,8 +2188,87 @@ pub fn run(ctx: &mut Ctx) -> &'static str {
             }
         }
     }
+    // ---- corpus + generated: sink life cycles at paths of every kind (build failures, /dev/full, close)
+    {
+        let two = [json!({"request": {"origin_vertex": 0}, "route": {"traversal_summary": {"distance": 1.5}}}), json!({"request": {"origin_vertex": 1}, "error": "no path"})];
+        let csv1 = csv(&[("origin", p("request.origin_vertex")), ("distance", p("route.traversal_summary.distance"))], true);
+        for (mode, spec, fmt, rate, close) in [
+            ('a', PathSpec::NoParent, FmtSpec::Json(true), None, false),
+            ('a', PathSpec::Directory, csv1.clone(), None, false),
+            ('e', PathSpec::Directory, csv1.clone(), None, false),
+            ('o', PathSpec::Directory, FmtSpec::Json(false), None, false),
+            ('a', PathSpec::Full, csv1.clone(), None, true),
+            ('o', PathSpec::Full, FmtSpec::Json(true), Some(3), true),
+            ('o', PathSpec::Full, csv1.clone(), None, false),
+            ('e', PathSpec::Full, FmtSpec::Json(true), None, false),
+            ('a', PathSpec::Missing, FmtSpec::Json(false), Some(2), true),
+            ('a', PathSpec::File("[\n{}\n\n]\n".into()), FmtSpec::Json(false), None, true),
+            ('a', PathSpec::Missing, csv1.clone(), Some(0), false),
+        ] {
+            if let (idx, true) = begin!() {
+                case_b(ctx, idx, mode, &spec, &fmt, rate, close, &two);
+            }
+        }
+    }
+    for _ in 0..ctx.n(400, 4000) {
+        let (idx, true) = begin!() else { continue };
+        let mut rng = Rng::for_case(ctx.seed, PROP, idx as u64);
+        let fmt = gen_format(&mut rng, true);
+        let spec = gen_path(&mut rng, &fmt);
+        let mode = match rng.below(5) {
+            0 => 'o',
+            1 => 'e',
+            _ => 'a',
+        };
+        let rate = match rng.below(8) {
+            0 if mode == 'a' => Some(-rng.range(0, 2)),
+            1 | 2 => None,
+            _ => Some(rng.range(1, 5)),
+        };
+        let n = rng.below(5);
+        let poison = rng.chance(1, 15);
+        let resps: Vec<Value> = (0..n).map(|_| if poison && rng.chance(1, 2) { json!(7) } else { gen_response(&mut rng, false) }).collect();
+        let close = rng.chance(1, 2);
+        case_b(ctx, idx, mode, &spec, &fmt, rate, close, &resps);
+    }
+    // ---- generated: Combined policies from build to close
+    for _ in 0..ctx.n(250, 2500) {
+        let (idx, true) = begin!() else { continue };
+        let mut rng = Rng::for_case(ctx.seed, PROP, idx as u64);
+        let k = rng.below(4);
+        let mut fmts: Vec<FmtSpec> = (0..k).map(|_| gen_format(&mut rng, true)).collect();
+        fmts.sort_by_key(|f| !matches!(f, FmtSpec::Json(_)));
+        let mut seen_csv = false;
+        for f in fmts.iter_mut() {
+            if let FmtSpec::Csv { cols, .. } = f {
+                if seen_csv {
+                    for (_, m) in cols.iter_mut() {
+                        strip_error_paths(m);
+                    }
+                }
+                seen_csv = true;
+            }
+        }
+        let trouble = rng.chance(1, 3);
+        let members: Vec<MemberSpec> = fmts
+            .into_iter()
+            .enumerate()
+            .map(|(i, fmt)| {
+                let path = if trouble { gen_path(&mut rng, &fmt) } else if rng.chance(1, 3) { PathSpec::File(fmt.build().initial_file_contents().unwrap_or_default()) } else { PathSpec::Missing };
+                let rate = if trouble && rng.chance(1, 8) { Some(0) } else if rng.chance(1, 2) { None } else { Some(rng.range(1, 4)) };
+                MemberSpec { label: format!("out-{}", i), path, fmt, rate }
+            })
+            .collect();
+        // a JSON member after a failing device would print the bookkeeping of the CSV member before it: keep
+        // the devices for CSV members, which come last
+        let n = rng.below(4);
+        let resps: Vec<Value> = (0..n).map(|_| gen_response(&mut rng, false)).collect();
+        let nest = rng.chance(1, 2);
+        let close = rng.chance(2, 3);
+        case_y(ctx, idx, &members, nest, close, &resps);
+    }
     // ---- end to end: CompassApp::run with a per-run file policy
-    if let Some(app) = build_app() {
+    if let Some(app) = build_app("parallelism = 4") {
         // corpus (fixed d0fd74e): one good query and one that fails input processing — two responses, two
         // records, under both policies; a batch of failing queries only (the early return); a degenerate grid
         for (persist, queries) in [
@@ -1581,13 +2279,13 @@ pub fn run(ctx: &mut Ctx) -> &'static str {
             (true, vec![json!({"origin_vertex": 0, "grid_search": {"destination_vertex": [1, 2]}}), json!({"grid_search": {}})]),
         ] {
             if let (idx, true) = begin!() {
-                let c = AppCase { existing: None, fmt: FmtSpec::Json(true), rate: None, persist, parallelism: 2, queries };
+                let c = AppCase { existing: None, via_app_config: false, fmt: FmtSpec::Json(true), rate: None, persist, parallelism: 2, queries };
                 case_a(ctx, idx, &app, &c);
             }
         }
         if let (idx, true) = begin!() {
             let f = csv(&[("origin", p("request.origin_vertex")), ("distance", p("route.traversal_summary.distance"))], false);
-            let c = AppCase { existing: None, fmt: f, rate: None, persist: true, parallelism: 3, queries: vec![json!({"origin_vertex": 0, "destination_vertex": 2}), json!(5), json!({"origin_vertex": 2, "destination_vertex": 0})] };
+            let c = AppCase { existing: None, via_app_config: false, fmt: f, rate: None, persist: true, parallelism: 3, queries: vec![json!({"origin_vertex": 0, "destination_vertex": 2}), json!(5), json!({"origin_vertex": 2, "destination_vertex": 0})] };
             case_a(ctx, idx, &app, &c);
         }
         let n_app = ctx.n(150, 1500);
@@ -1605,6 +2303,7 @@ pub fn run(ctx: &mut Ctx) -> &'static str {
                 let queries: Vec<Value> = (0..nq).map(|_| gen_query(&mut rng)).collect();
                 let c = AppCase {
                     existing: existing.clone(),
+                    via_app_config: rng.chance(1, 5),
                     fmt: fmt.clone(),
                     rate: if rng.chance(1, 2) { None } else { Some(rng.range(1, 9)) },
                     persist,
@@ -1621,6 +2320,37 @@ pub fn run(ctx: &mut Ctx) -> &'static str {
                     existing = Some(f);
                 }
             }
+        }
+        // the sink cannot be built, or refuses every write; and runs without an output policy
+        for (spec, fmt, rate, persist, queries) in [
+            (Some(PathSpec::Full), FmtSpec::Json(true), None, true, vec![json!({"origin_vertex": 0, "destination_vertex": 2})]),
+            (Some(PathSpec::Full), FmtSpec::Json(true), None, false, vec![json!({"origin_vertex": 0, "destination_vertex": 2}), json!({"origin_vertex": 1, "destination_vertex": 2})]),
+            (Some(PathSpec::Full), FmtSpec::Json(true), None, false, vec![json!({"origin_vertex": 0, "destination_vertex": 2}), json!(5)]),
+            (Some(PathSpec::NoParent), FmtSpec::Json(true), None, true, vec![json!({"origin_vertex": 0, "destination_vertex": 2})]),
+            (Some(PathSpec::Missing), FmtSpec::Json(true), Some(0), false, vec![json!({"origin_vertex": 0, "destination_vertex": 2})]),
+            (None, FmtSpec::Json(true), None, true, vec![json!({"origin_vertex": 0, "destination_vertex": 2}), json!(5)]),
+            (None, FmtSpec::Json(true), None, false, vec![json!({"origin_vertex": 0, "destination_vertex": 2}), json!(5)]),
+        ] {
+            if let (idx, true) = begin!() {
+                case_a_special(ctx, idx, &app, spec.as_ref(), &fmt, rate, persist, 2, &queries);
+            }
+        }
+        for _ in 0..ctx.n(60, 600) {
+            let (idx, true) = begin!() else { continue };
+            let mut rng = Rng::for_case(ctx.seed, PROP, idx as u64);
+            let persist = rng.chance(1, 2);
+            let fmt = gen_app_format(&mut rng, true);
+            let (spec, rate) = match rng.below(6) {
+                0 => (None, None),
+                1 => (Some(PathSpec::NoParent), None),
+                2 => (Some(PathSpec::Directory), None),
+                3 => (Some(PathSpec::Missing), Some(-rng.range(0, 2))),
+                _ => (Some(PathSpec::Full), if rng.chance(1, 2) { None } else { Some(rng.range(1, 4)) }),
+            };
+            let nq = rng.below(6);
+            let queries: Vec<Value> = (0..nq).map(|_| gen_query(&mut rng)).collect();
+            let parallelism = 1 + rng.below(8);
+            case_a_special(ctx, idx, &app, spec.as_ref(), &fmt, rate, persist, parallelism, &queries);
         }
     } else {
         ctx.count("A/app-did-not-build");
